@@ -185,7 +185,8 @@ func (x *Exec) dischargeSeed(q *Query, tier string, seed int) *Result {
 		bin, name string
 		extra     []string
 	}
-	cs := []contestant{{"z3-new", "z3-new", nil}, {"z3", "z3-4.8.12", nil}, {"z3-new", "z3-new/eager4", []string{"smt.qi.eager_threshold=4"}}}
+	cs := []contestant{{"z3-new", "z3-new", nil}, {"z3", "z3-4.8.12", nil}, {"z3-new", "z3-new/eager4", []string{"smt.qi.eager_threshold=4"}},
+		{"z3", "z3-4.8.12/eager2", []string{"smt.qi.eager_threshold=2"}}}
 	ch := make(chan ans, len(cs))
 	for _, c := range cs {
 		c := c
